@@ -438,50 +438,62 @@ pub fn expand_glob(tokens: &mut types::Tokens) {
     }
 }
 
-fn expand_one_env(sh: &Shell, token: &str) -> String {
+// Expands the leftmost `$name` / `${name}` / `$$` / `$?` of `token`.
+// Returns the text up to and including the inserted value, and the
+// not yet scanned rest of the token.
+fn expand_first_env(sh: &Shell, token: &str) -> Option<(String, String)> {
     // do not combine these two into one: `\{?..\}?`,
     // otherwize `}` in `{print $NF}` would gone.
     let re1 = Regex::new(r"^(.*?)\$([A-Za-z0-9_]+|\$|\?)(.*)$").unwrap();
     let re2 = Regex::new(r"(.*?)\$\{([A-Za-z0-9_]+|\$|\?)\}(.*)$").unwrap();
-    if !re1.is_match(token) && !re2.is_match(token) {
-        return token.to_string();
-    }
-
-    let mut result = String::new();
-    let match_re1 = re1.is_match(token);
-    let match_re2 = re2.is_match(token);
-    if !match_re1 && !match_re2 {
-        return token.to_string();
-    }
-
-    let cap_results = if match_re1 {
-        re1.captures_iter(token)
-    } else {
-        re2.captures_iter(token)
+    let cap1 = re1.captures(token);
+    let cap2 = re2.captures(token);
+    // the reference that starts first in the token
+    // where a reference starts: the tail and the name are suffixes of the
+    // token, `$` resp. `${` and `}` are the rest of the reference.
+    let (cap, pos) = match (cap1, cap2) {
+        (Some(c1), Some(c2)) => {
+            let p1 = token.len() - c1[3].len() - c1[2].len() - 1;
+            let p2 = token.len() - c2[3].len() - c2[2].len() - 3;
+            if p1 <= p2 { (c1, p1) } else { (c2, p2) }
+        }
+        (Some(c1), None) => {
+            let p1 = token.len() - c1[3].len() - c1[2].len() - 1;
+            (c1, p1)
+        }
+        (None, Some(c2)) => {
+            let p2 = token.len() - c2[3].len() - c2[2].len() - 3;
+            (c2, p2)
+        }
+        (None, None) => return None,
     };
 
-    for cap in cap_results {
-        let head = cap[1].to_string();
-        let tail = cap[3].to_string();
-        let key = cap[2].to_string();
-        if key == "?" {
-            result.push_str(format!("{}{}", head, sh.previous_status).as_str());
-        } else if key == "$" {
-            unsafe {
-                let val = libc::getpid();
-                result.push_str(format!("{}{}", head, val).as_str());
-            }
-        } else if let Ok(val) = env::var(&key) {
+    let mut result = String::new();
+    let head = token[..pos].to_string();
+    let tail = cap[3].to_string();
+    let key = cap[2].to_string();
+    if key == "?" {
+        result.push_str(format!("{}{}", head, sh.previous_status).as_str());
+    } else if key == "$" {
+        unsafe {
+            let val = libc::getpid();
             result.push_str(format!("{}{}", head, val).as_str());
-        } else if let Some(val) = sh.get_env(&key) {
-            result.push_str(format!("{}{}", head, val).as_str());
-        } else {
-            result.push_str(&head);
         }
-        result.push_str(&tail);
+    } else if let Ok(val) = env::var(&key) {
+        result.push_str(format!("{}{}", head, val).as_str());
+    } else if let Some(val) = sh.get_env(&key) {
+        result.push_str(format!("{}{}", head, val).as_str());
+    } else {
+        result.push_str(&head);
     }
+    Some((result, tail))
+}
 
-    result
+fn expand_one_env(sh: &Shell, token: &str) -> String {
+    match expand_first_env(sh, token) {
+        Some((head, tail)) => format!("{}{}", head, tail),
+        None => token.to_string(),
+    }
 }
 
 fn need_expand_brace(line: &str) -> bool {
@@ -810,16 +822,21 @@ pub fn expand_env(sh: &Shell, tokens: &mut types::Tokens) {
             continue;
         }
 
-        let mut _token = token.clone();
-        while env_in_token(&_token) {
-            let expanded = expand_one_env(sh, &_token);
-            if expanded == _token {
-                // nothing could be expanded (e.g. `${a` without a closing
-                // brace): stop instead of looping forever.
-                break;
+        // one left-to-right pass: an inserted value is final text and is
+        // not scanned for references again.
+        let mut _token = String::new();
+        let mut rest = token.clone();
+        while env_in_token(&rest) {
+            match expand_first_env(sh, &rest) {
+                Some((head, tail)) => {
+                    _token.push_str(&head);
+                    rest = tail;
+                }
+                // nothing could be expanded (e.g. `${a` without a closing brace)
+                None => break,
             }
-            _token = expanded;
         }
+        _token.push_str(&rest);
         buff.push((idx, _token));
         idx += 1;
     }
